@@ -12,7 +12,8 @@ def same_as_placeholder(ev, ph):
 
 
 def obligations(ctx):
-    obs = []
+    from .c16 import ScanOb
+    obs = [ScanOb(True)]      # premise: a call's result is a function of its two arguments (otherwise `@` may stem from an earlier call: histories are replayed)
     ocs = (True,) if ctx.tier == 'quick' else (True, False)
     for oc in ocs:
         tag = 'dbg' if oc else 'rel'
